@@ -46,7 +46,17 @@ Definition rt_Matches (a b : rate_total) : bool :=
   end.
 
 (* ---- Merge ---- *)
+(* x.MatchPrecision(y).Add(y): the sum at the finer of the two precisions, nothing is rounded away.
+   Plain x.Add(y) rescales - i.e. rounds, half away from zero - y to x's decimals. *)
+Definition add_precise (x y : amount) : amount := add (match_precision x y) y.
+
+(* repaired: every presented figure is summed with x.MatchPrecision(y).Add(y) *)
 Definition rt_merge (m r : rate_total) : rate_total :=
+  mkRT (rt_key m) (rt_country m) (rt_ext m) (rt_pct m) (rt_sur m)
+       (add_precise (rt_base m) (rt_base r)) (add_precise (rt_amount m) (rt_amount r))
+       (match rt_sur r with Some _ => add_precise (rt_suramount m) (rt_suramount r) | None => rt_suramount m end).
+(* as shipped: x.Add(y), the right operand rounded to the left operand's decimals *)
+Definition rt_merge_shipped (m r : rate_total) : rate_total :=
   mkRT (rt_key m) (rt_country m) (rt_ext m) (rt_pct m) (rt_sur m)
        (add (rt_base m) (rt_base r)) (add (rt_amount m) (rt_amount r))
        (match rt_sur r with Some _ => add (rt_suramount m) (rt_suramount r) | None => rt_suramount m end).
@@ -56,8 +66,19 @@ Fixpoint merge_rate (rts : list rate_total) (r : rate_total) : list rate_total :
   | [] => [r]
   | m :: rest => if rt_Matches m r then rt_merge m r :: rest else m :: merge_rate rest r
   end.
+Fixpoint merge_rate_shipped (rts : list rate_total) (r : rate_total) : list rate_total :=
+  match rts with
+  | [] => [r]
+  | m :: rest => if rt_Matches m r then rt_merge_shipped m r :: rest else m :: merge_rate_shipped rest r
+  end.
 
 Definition sur_merge (a b : option amount) : option amount :=
+  match b with
+  | None => a
+  | Some y => match a with Some x => Some (add_precise x y) | None => Some y end
+  end.
+(* one-sided surcharges kept (repaired earlier), two-sided ones added with plain Add *)
+Definition sur_merge_rounding (a b : option amount) : option amount :=
   match b with
   | None => a
   | Some y => match a with Some x => Some (add x y) | None => Some y end
@@ -72,34 +93,40 @@ Definition sur_merge_shipped (a b : option amount) : option amount :=
    is set (non-zero), the presented figure otherwise *)
 Definition ct_PreciseAmount (c : cat_total) : amount := precise_or (ct_precise c) (ct_amount c).
 Definition tt_PreciseSum (t : tax_total) : amount := precise_or (tt_precise t) (tt_sum t).
-(* x.MatchPrecision(y).Add(y): nothing is rounded away *)
-Definition add_precise (x y : amount) : amount := add (match_precision x y) y.
 
-(* what Merge does with the three figures that were repaired at different times: the category
-   surcharge, the category's unexported amount, the summary's unexported sum *)
+(* what Merge does with the figures that were repaired at different times: the presented amounts
+   (category amount, summary sum, and - through the rate-group merge - base, amount, surcharge amount),
+   the category surcharge, the category's unexported amount, the summary's unexported sum *)
 Record merge_policy := mkMP {
+  mp_add : amount -> amount -> amount;
+  mp_merge_rate : list rate_total -> rate_total -> list rate_total;
   mp_sur : option amount -> option amount -> option amount;
   mp_cat_precise : cat_total -> cat_total -> amount;
   mp_sum_precise : tax_total -> tax_total -> amount
 }.
 (* repaired: pa := ct.PreciseAmount(); catTotal.amount = catTotal.PreciseAmount().MatchPrecision(pa).Add(pa)
-             ps := t2.PreciseSum();    nt.sum = nt.PreciseSum().MatchPrecision(ps).Add(ps) *)
+             ps := t2.PreciseSum();    nt.sum = nt.PreciseSum().MatchPrecision(ps).Add(ps)
+             and all six presented figures x.MatchPrecision(y).Add(y) *)
 Definition mp_repaired : merge_policy :=
-  mkMP sur_merge
+  mkMP add_precise merge_rate sur_merge
        (fun m c => add_precise (ct_PreciseAmount m) (ct_PreciseAmount c))
        (fun t t2 => add_precise (tt_PreciseSum t) (tt_PreciseSum t2)).
-(* as shipped: catTotal.amount untouched; nt.sum = nt.sum.Add(t2.sum) *)
+(* as shipped: catTotal.amount untouched; nt.sum = nt.sum.Add(t2.sum); presented figures x.Add(y) *)
 Definition mp_shipped : merge_policy :=
-  mkMP sur_merge_shipped
+  mkMP add merge_rate_shipped sur_merge_shipped
        (fun m _ => ct_precise m)
        (fun t t2 => add (tt_precise t) (tt_precise t2)).
-(* the surcharge repaired, the unexported figures as shipped (the state before the last repair) *)
+(* the surcharge repaired, the unexported figures as shipped (the state before the last but one repair) *)
 Definition mp_precise_shipped : merge_policy :=
-  mkMP sur_merge (mp_cat_precise mp_shipped) (mp_sum_precise mp_shipped).
+  mkMP add merge_rate_shipped sur_merge_rounding (mp_cat_precise mp_shipped) (mp_sum_precise mp_shipped).
+(* the unexported figures repaired too, the presented ones still added with plain Add (the state
+   before the last repair): operands of different precision are rounded to the left one's decimals *)
+Definition mp_rounding_shipped : merge_policy :=
+  mkMP add merge_rate_shipped sur_merge_rounding (mp_cat_precise mp_repaired) (mp_sum_precise mp_repaired).
 
 Definition ct_merge_with (mp : merge_policy) (m c : cat_total) : cat_total :=
-  mkCT (ct_code m) (ct_retained m) (fold_left merge_rate (ct_rates c) (ct_rates m))
-       (add (ct_amount m) (ct_amount c)) (mp_sur mp (ct_surcharge m) (ct_surcharge c)) (mp_cat_precise mp m c).
+  mkCT (ct_code m) (ct_retained m) (fold_left (mp_merge_rate mp) (ct_rates c) (ct_rates m))
+       (mp_add mp (ct_amount m) (ct_amount c)) (mp_sur mp (ct_surcharge m) (ct_surcharge c)) (mp_cat_precise mp m c).
 
 Fixpoint merge_cat_with mp (cts : list cat_total) (c : cat_total) : list cat_total :=
   match cts with
@@ -110,10 +137,11 @@ Fixpoint merge_cat_with mp (cts : list cat_total) (c : cat_total) : list cat_tot
 
 Definition tt_merge_with mp (t t2 : tax_total) : tax_total :=
   mkTT (fold_left (merge_cat_with mp) (tt_cats t2) (tt_cats t))
-       (add (tt_sum t) (tt_sum t2)) (mp_sum_precise mp t t2).
+       (mp_add mp (tt_sum t) (tt_sum t2)) (mp_sum_precise mp t t2).
 Definition tt_merge := tt_merge_with mp_repaired.
 Definition tt_merge_shipped := tt_merge_with mp_shipped.
 Definition tt_merge_precise_shipped := tt_merge_with mp_precise_shipped.
+Definition tt_merge_rounding_shipped := tt_merge_with mp_rounding_shipped.
 
 (* ---- Total.Calculate (recalculation of a summary from its bases; used by DocumentRef) ---- *)
 Definition tt_calculate_from (init_sur : cat_total -> option amount) (cr : bool) (c : nat) (t : tax_total) : tax_total :=
